@@ -200,9 +200,21 @@ def extract_blocks(sp, orig_code, inst_code):
     from pynguin.instrumentation import version
     from pynguin.instrumentation.controlflow import ArtificialInstr
 
-    otree, itree = code_tree(orig_code), code_tree(inst_code)
-    assert len(otree) == len(itree), "instrumentation changed the shape of the code object tree"
-    orig_of = {id(i): (k, o) for k, (o, i) in enumerate(zip(otree, itree))}
+    index_of = {id(c): k for k, c in enumerate(code_tree(orig_code))}
+    orig_of = {}
+
+    def pair(o, i):
+        """Re-assembly reorders co_consts; children are matched by (name, first line) and, among equal
+        keys (two lambdas on one line), by their order of appearance."""
+        orig_of[id(i)] = (index_of[id(o)], o)
+        groups = {}
+        for k in o.co_consts:
+            if isinstance(k, types.CodeType):
+                groups.setdefault((k.co_name, k.co_firstlineno), []).append(k)
+        for k in i.co_consts:
+            if isinstance(k, types.CodeType):
+                pair(groups[(k.co_name, k.co_firstlineno)].pop(0), k)
+    pair(orig_code, inst_code)
     out = {}
     for coid, meta in code_objects(sp):
         c = meta.code_object
